@@ -314,7 +314,196 @@ def verify_all(ctx, repo, prop):
     dsl.verify(ctx, repo, dsl.Registry(), prop, MAP + "._compute_log_D_n", h_log_D_n, expect_covers=LOGDN_COVERS)
     dsl.verify(ctx, repo, dsl.Registry(), prop, MAP + ".compute_log_S", h_log_S, expect_covers=LOGS_COVERS)
     dsl.verify(ctx, repo, dsl.Registry(), prop, MAP + ".get_map_ccfs", h_map_ccfs, expect_covers=["ccfs"])
+    dsl.verify(ctx, repo, dsl.Registry(), prop, MAP + "._set_max_assignment", h_traceback, expect_covers=TRACE_COVERS)
     ctx.trust("array abstraction (CellArray): the loop bodies touch only the cells named in the frame obligations; np.zeros / np.ones give the initial contents stated in the harness "
               "(choice 0, result -inf, log_S column 0 = log_D column 0)", "witness technique: an arbitrary fixed candidate j* stands for the universal quantifier",
               "compute_log_D (loop over children and samples calling _compute_log_D_n), compute_max_likelihood, _set_max_assignment (traceback), get_map_clonal_prev and the "
               "networkx conversion are bounded-only")
+
+
+# ----------------------------------------------------------------------------------------------------------- traceback feasibility
+
+
+def h_traceback(I, fi):
+    """_set_max_assignment at one node with n >= 1 children, for an arbitrary sample d: the indices handed to the children are
+    >= 0 and sum to at most the node's own index (so CCF(node) >= sum of its children's CCFs and top-level clones sum to <= 1)."""
+    P = I.P
+    n = alg.sym("n_children", "Int")
+    Dn = alg.sym("D", "Int")
+    P.assume(z3.And(P.z(n) >= 1, P.z(Dn) >= 1))
+    log = {"stores": [], "rec": [], "rem_writes": []}
+
+    def idxs_at(d):
+        v = alg.raw_app("idx_node", d, sort="Int")
+        return v
+
+    class Idxs(Model):
+        def m___len__(self, I_):
+            return Dn
+
+        def getitem(self, I_, d):
+            v = idxs_at(I_.to_num(d))
+            I_.P.assume(I_.P.z(v) >= 0)
+            return v
+
+    class Choice2(Model):
+        """log_S_choice[d, j] with the contract of compute_log_S: 0 <= value <= j"""
+
+        def getitem(self, I_, idx):
+            d, j = idx
+            v = alg.raw_app("S_choice", I_.to_num(d), I_.to_num(j), sort="Int")
+            I_.P.assume(z3.And(I_.P.z(v) >= 0, I_.P.z(v) <= I_.P.z(I_.to_num(j))))
+            return v
+
+    class ChoiceList(Model):
+        """log_D_choice[i][d, r] with the contract of _compute_log_D_n: 0 <= value <= r"""
+
+        def getitem(self, I_, i):
+            outer_i = I_.to_num(i)
+
+            class Ci(Model):
+                def getitem(self, I2, idx):
+                    d, r = idx
+                    v = alg.raw_app("D_choice", outer_i, I2.to_num(d), I2.to_num(r), sort="Int")
+                    I2.P.assume(z3.And(I2.P.z(v) >= 0, I2.P.z(v) <= I2.P.z(I2.to_num(r))))
+                    return v
+
+            return Ci()
+
+    class MaxIdx(Model):
+        def __init__(self, child):
+            self.child = child
+            self.cells = {}
+
+        def getitem(self, I_, d):
+            k = key_of(I_.to_num(d))
+            if k not in self.cells:
+                raise Unsupported("max_idx read before it is written")
+            return self.cells[k]
+
+        def setitem(self, I_, d, v):
+            self.cells[key_of(I_.to_num(d))] = v
+            log["stores"].append((self.child, I_.to_num(d), v))
+
+    class NodeDict(Model):
+        def __init__(self, name):
+            self.name = name
+            self.extra = {}
+
+        def getitem(self, I_, key):
+            if key in self.extra:
+                return self.extra[key]
+            if self.name == "node" and key == "log_S_choice":
+                return Choice2()
+            if self.name == "node" and key == "log_D_choice":
+                return ChoiceList()
+            raise Unsupported("graph.nodes[%s][%r]" % (self.name, key))
+
+        def setitem(self, I_, key, v):
+            if self.name == "node" or key != "max_idx":
+                raise Unsupported("store of %r into the attributes of %s" % (key, self.name))
+            self.extra[key] = v
+
+    node_dict = NodeDict("node")
+    child_dicts = {}
+
+    class Nodes(Model):
+        def getitem(self, I_, key):
+            if key == "the-node":
+                return node_dict
+            k = key_of(key[1]) if isinstance(key, tuple) else repr(key)
+            return child_dicts.setdefault(k, NodeDict(("child", key)))
+
+    class Graph(Model):
+        def a_nodes(self, I_):
+            return Nodes()
+
+        def m_successors(self, I_, nd):
+            return SymSeq("children", n, lambda i: ("child", i))
+
+    st = {}
+
+    def read_rem(I_, d):
+        dn = I_.to_num(d)
+        k = key_of(dn)
+        if st.get("initial"):
+            # value produced by the real list comprehension before the loop
+            return st["initial"].core_at(I_, dn)
+        v = alg.raw_app(st["rem_name"], dn, sort="Int")
+        I_.P.assume(z3.And(I_.P.z(v) >= 0, I_.P.z(v) <= I_.P.z(idxs_at(dn))), "loop invariant: 0 <= remaining budget <= the node's index")
+        return v
+
+    rem = CellArray("child_total_idx", (Dn,), read_rem)
+    I.registry.globals_override["np"] = NpZeros(lambda: None)
+    made_max = []
+
+    def np_zeros(I_, shape, dtype=None):
+        m = MaxIdx(None)
+        made_max.append(m)
+        return m
+
+    I.registry.globals_override["np"] = NpStub2(np_zeros)
+
+    def rec(I_, args, kwargs, node_):
+        log["rec"].append((args[1], args[2]))
+
+    I.registry.call_contracts[fi.qualname] = rec
+
+    def outer(I_, node, fr):
+        init = fr.vars["child_total_idx"]
+        if not isinstance(init, SymSeq):
+            raise Unsupported("child_total_idx is not built by a comprehension over the samples")
+        dq = alg.sym("d_star", "Int")
+        P.assume(z3.And(P.z(dq) >= 0, P.z(dq) < P.z(Dn)))
+        P.check("traceback.budget-per-sample", P.z(init.length) == P.z(Dn), "one remaining budget per sample", kind="post")
+        v0 = I_.to_num(init.core_at(I_, dq))
+        P.check("traceback.initial-budget", z3.And(P.z(v0) >= 0, P.z(v0) <= P.z(idxs_at(dq)), P.z(v0) == P.z(alg.raw_app("S_choice", dq, idxs_at(dq), sort="Int"))),
+                "the children's total budget is log_S_choice[d, idx(node)[d]], which is in [0, idx(node)[d]]", kind="post")
+        rng_ = I_.eval(node.iter, fr)
+        P.check("traceback.visits-every-child-once", isinstance(rng_, SymSeq) and P.z(rng_.length) == P.z(n) and P.z(I_.to_num(rng_.core_at(I_, Num.const(0)))) == P.z(n) - 1,
+                "children are visited from the last to the first, each exactly once", kind="post")
+        # inductive step: arbitrary child i, arbitrary remaining budgets satisfying the invariant
+        i = rng_.fresh_index(I_, "pos")
+        ci = I_.to_num(rng_.core_at(I_, i))
+        st["initial"] = None
+        st["rem_name"] = P.fresh_name("rem")
+        fr.vars["child_total_idx"] = rem
+        rem.cells.clear()
+        del rem.writes[:]
+        I_.assign_target(node.target, ci, fr)
+        I_.registry.generic_loops.add(fi.qualname)
+        I_.exec_block(node.body, fr)
+        dsl.cover(I_, "traceback.step")
+        gens = I_.P.ghost.get("generic_indices", [])
+        P.check("traceback.inner-loop-over-samples", len(gens) >= 1, "the inner loop ranges over the samples (generic sample d)", kind="post")
+        d = gens[-1]
+        stores = [s_ for s_ in log["stores"]]
+        P.check("traceback.one-index-per-child-and-sample", len(stores) == 1 and (stores[0][1] - d).is_zero(), "exactly max_idx[d] of the current child is written", kind="post")
+        m = I_.to_num(stores[0][2])
+        r_before = alg.raw_app(st["rem_name"], d, sort="Int")
+        P.check("traceback.child-index-within-budget", z3.And(P.z(m) >= 0, P.z(m) <= P.z(r_before), P.z(m) == P.z(alg.raw_app("D_choice", ci, d, r_before, sort="Int"))),
+                "the child's index is log_D_choice[i][d, remaining] and lies in [0, remaining]", kind="post")
+        P.check("traceback.budget-updated", len(rem.writes) == 1 and (I_.to_num(rem.writes[0]) - d).is_zero() and P.z(I_.to_num(rem.cells[key_of(d)])) == P.z(r_before - m),
+                "remaining[d] decreases by exactly the child's index (so it stays >= 0 and the children's indices sum to at most the initial budget)", kind="post")
+        P.check("traceback.recursion", len(log["rec"]) == 1 and log["rec"][0][1] == ("child", ci) and log["rec"][0][0] is made_max[-1],
+                "the child's subtree is assigned from the child's own indices", kind="post")
+        raise PathEnd()
+
+    I.registry.loop_invariants[(fi.qualname, 0)] = outer
+    I.call_function(fi, [Graph(), Idxs(), "the-node"], {}, force_inline=True)
+
+
+class NpZeros(Model):
+    def __init__(self, f):
+        self.f = f
+
+
+class NpStub2(Model):
+    def __init__(self, zeros):
+        self.zeros = zeros
+
+    def m_zeros(self, I, shape, dtype=None):
+        return self.zeros(I, shape, dtype)
+
+
+TRACE_COVERS = ["traceback.step"]
